@@ -45,6 +45,8 @@ type Case struct {
 	Chunk     int       `json:"reader_chunk,omitempty"`               // the reader delivers at most this many bytes per Read (0: no limit)
 	CbErr     string    `json:"callback_error,omitempty"`             // which error the failing callback returns: "" (a private one), skipdir, skipall, eof, wrapped-skipdir
 	RawTgt    bool      `json:"raw_target,omitempty"`                 // the target directory is handed over as spelled (trailing slash, ./, x/../x …), not cleaned
+	NoOpts    bool      `json:"no_options,omitempty"`                 // the call is made without any option (the format is the default one)
+	Prior     string    `json:"prior_call,omitempty"`                 // an option-less call made in the same process just before: "verify" (read-only; its verdict is not compared)
 	StrayLast bool      `json:"stray_option_after_dry_run,omitempty"` // the stray encoding option stands after WithDryRun in the option list (otherwise before it)
 }
 
@@ -120,6 +122,14 @@ func strayOpts(c Case) []gtree.Option {
 		return []gtree.Option{gtree.WithEncodeTOML()}
 	}
 	return nil
+}
+
+// walkOpts: the options of a walk case – none at all when the case says so (its format is then the default one)
+func walkOpts(c Case) []gtree.Option {
+	if c.NoOpts && c.Fmt == fmtDefault {
+		return nil
+	}
+	return append(fmtOpts(c.Fmt), strayOpts(c)...)
 }
 
 // strayAll gives every fourth mkdir / verify / walk case a stray encoding option.
@@ -273,10 +283,14 @@ func runCaseR1(m *Model, c Case) ([]Diff, string) {
 			return nil
 		}
 		var err error
+		wopts := walkOpts(c)
+		if c.Prior == "verify" {
+			_ = gtree.VerifyFromMarkdown(bytes.NewReader(c.doc()))
+		}
 		if c.Alias {
-			err = gtree.Walk(c.reader(), cb, append(fmtOpts(c.Fmt), strayOpts(c)...)...)
+			err = gtree.Walk(c.reader(), cb, wopts...)
 		} else {
-			err = gtree.WalkFromMarkdown(c.reader(), cb, append(fmtOpts(c.Fmt), strayOpts(c)...)...)
+			err = gtree.WalkFromMarkdown(c.reader(), cb, wopts...)
 		}
 		realv := "v=" + showVisits(vs) + " e=" + classifyCb(c, err)
 		if d := keptVisits(kept, vs); d != nil {
@@ -327,17 +341,21 @@ func runCaseR1(m *Model, c Case) ([]Diff, string) {
 		}
 		var err error
 		root := buildRoot(t)
+		wopts := walkOpts(c)
+		if c.Prior == "verify" {
+			_ = gtree.VerifyFromRoot(buildRoot(t))
+		}
 		if c.Alias {
-			err = gtree.WalkProgrammably(root, cb, append(fmtOpts(c.Fmt), strayOpts(c)...)...)
+			err = gtree.WalkProgrammably(root, cb, wopts...)
 		} else {
-			err = gtree.WalkFromRoot(root, cb, append(fmtOpts(c.Fmt), strayOpts(c)...)...)
+			err = gtree.WalkFromRoot(root, cb, wopts...)
 		}
 		realv := "v=" + showVisits(vs) + " e=" + classifyCb(c, err)
 		modelv := m.Ask("rootwalk " + c.Fmt.enc() + " " + optN(c.FailAt) + " " + addMirror(t).Enc())
 		d := append(cmp("walk-root", realv, modelv), keptVisits(kept, vs)...)
 		// walking the same root again visits the same rendered tree (node facts are rebuilt, not appended to)
 		vs, k, kept = nil, 0, nil
-		err2 := gtree.WalkFromRoot(root, cb, append(fmtOpts(c.Fmt), strayOpts(c)...)...)
+		err2 := gtree.WalkFromRoot(root, cb, wopts...)
 		d = append(d, cmp("walk-root (second walk of the same root)", "v="+showVisits(vs)+" e="+classifyCb(c, err2), modelv)...)
 		return d, realv
 	case "rootiter":
